@@ -19,6 +19,7 @@ const (
 	shCloneWith
 	shClone
 	shTreeReplaced
+	shHijack // a direct request whose handler takes over the connection (Writer().Hijack on a capable writer)
 	nShapes
 )
 
@@ -114,7 +115,7 @@ func HarnessC12History(st any) {
 		wantPattern, wantID := "", ""
 		wantScope := fox.RouteHandler
 		switch shape {
-		case shDirect, shLookup, shCloneWith, shClone, shTreeReplaced:
+		case shDirect, shLookup, shCloneWith, shClone, shTreeReplaced, shHijack:
 			wantPattern, wantID = "/u/{id}", tok("p", i)
 		case shIgnoredTsr:
 			wantPattern, wantID = "/t/{id}/", tok("p", i)
@@ -154,8 +155,13 @@ func HarnessC12History(st any) {
 			// leave per-request traces for the next user of this context
 			c.SetHeader("R-Tok", tok("r", i))
 			w.WriteHeader(201 + i)
-			_, _ = w.Write([]byte("body")[:1+i%3])
+			nw, werr := w.Write([]byte("body")[:1+i%3])
+			sym.Assert(werr == nil && nw == 1+i%3 && w.Status() == 201+i && w.Written() && w.Size() == 1+i%3, "the writer of the current request accepts and records this request's response")
 			switch shape {
+			case shHijack:
+				_, _, herr := w.Hijack()
+				sym.Assert(herr == nil, "Hijack is delegated to a capable underlying writer")
+				sym.Cover("connection hijacked in a handler")
 			case shClone:
 				cl := c.Clone()
 				s.clones = append(s.clones, cloneRec{c: cl, id: wantID, pattern: wantPattern, q: tok("q", i), hdr: tok("h", i), status: 201 + i, rhdr: tok("r", i)})
@@ -193,6 +199,7 @@ func HarnessC12History(st any) {
 			if cc != nil {
 				sym.Assert(cc.Param("id") == wantID && cc.Pattern() == wantPattern && cc.Request() == req, "Lookup context shows the looked-up request")
 				sym.Assert(cc.QueryParam("q") == tok("q", i), "Lookup context query values")
+				sym.Assert(cc.Scope() == fox.RouteHandler && cc.Route() == rte, "Lookup context shows the route scope and the route found")
 				cl := cc.Clone()
 				s.clones = append(s.clones, cloneRec{c: cl, id: wantID, pattern: wantPattern, q: tok("q", i), hdr: tok("h", i), status: 200, rhdr: ""})
 				sym.Cover("Clone of a Lookup context")
@@ -205,6 +212,10 @@ func HarnessC12History(st any) {
 			}
 			serveCapture(s.r, req)
 			sym.Assert(seen, "handler ran")
+		case shHijack:
+			gh := &ghost{sc: &script{}, hdr: http.Header{}}
+			esc := panicsWith(func() { s.r.ServeHTTP(richW{gh, &capCalls{}}, req) })
+			sym.Assert(esc == nil && seen, "handler ran")
 		case shRedirect:
 			s.redirScope = 0
 			g, _ := serveCapture(s.r, req)
